@@ -11,7 +11,11 @@ def _clash_jobs(tier, seed):
     cases, r = corpus.gen_shapes("clash", n)
     lim = 6000 if tier == "quick" else 60000
     sel = corpus.pick(cases, lim, seed)
-    meta = {"N": n, "cases": len(cases), "replayed": len(sel), "states": r["distinct"], "name_pool": 7}
+    # deeper collision forms by simulation: duplicates inside nested / only-child sections need >= 4 rows
+    deep, _ = corpus.gen_shapes("clash", 6, simulate=f"num={2500 if tier == 'quick' else 30000}", depth=9, seed=seed + 17, timeout=900)
+    deep = [c for c in deep if len(c["rows"]) >= 4]
+    sel = sel + deep
+    meta = {"N": n, "cases": len(cases), "replayed": len(sel), "simulated_deeper": len(deep), "states": r["distinct"], "name_pool": 7}
     return [{"shapes": c["rows"], "seed": seed, "feat": [], "fmt": "dict"} for c in sel], meta
 
 
